@@ -80,6 +80,14 @@ func c14Child(args []string) {
 						os.Exit(3)
 					}
 					fmt.Fprintf(out, "saveack %d\n", pos)
+					if i%6 == 5 { // the subscription is rewound to the beginning
+						fmt.Fprintf(out, "savestart 0\n")
+						if err := s.SaveOffset(context.Background(), "sub", eb.OffsetOldest); err != nil {
+							fmt.Fprintf(out, "error %v\n", err)
+							os.Exit(3)
+						}
+						fmt.Fprintf(out, "saveack 0\n")
+					}
 				}
 			}
 		}(w)
